@@ -23,3 +23,22 @@ Proof. exact size_bound. Qed.
 
 Print Assumptions C14_supported_header_in_range.
 Print Assumptions C14_size_bound.
+
+(* ---- over the REGENERATED Qcow2Info::new: for every header view in range and every legal parameter set it returns
+   Ok(info) with a geometry inside info_rng (the hypotheses of Props/C13.v and Props/C15.v), never a panic ---- *)
+From Q.Base Require Import RExpr.
+From Q.Gen Require Import GenCodec.
+From Q.Proofs Require Import GenEq GeqMore.
+Import ListNotations.
+
+Theorem C14_info_new_in_range : forall cb ro size hb bs rbc l2c rdonly backing,
+  9 <= cb <= 21 -> ro <= 6 -> size < 2 ^ 64 -> 9 <= bs <= 12 -> bs <= cb ->
+  param_ok rbc bs cb -> param_ok l2c bs cb ->
+  snd (cache_geom rbc 262144 bs cb) < 2 ^ 32 ->
+  snd (cache_geom l2c (N.min (N.shiftr size (cb - 3)) 33554432) bs cb) < 2 ^ 32 ->
+  (backing = true -> rdonly = true) ->
+  exists i, call g_Qcow2Info_new [v_hdrview cb ro size hb; v_params bs rbc l2c rdonly backing] = Ret (VRes (inl (v_info i)))
+            /\ info_rng i /\ virtual_size i = size.
+Proof. exact info_new_in_range. Qed.
+
+Print Assumptions C14_info_new_in_range.
